@@ -33,9 +33,23 @@ StrInfix(p, s) == \E i \in 1..(Len(s) + 1) : OccursAt(p, s, i)
 (*   [t |-> "bol"] / [t |-> "eol"]   ^ and $ (no multi-line mode)           *)
 (* Unanchored search, as regex::Regex::is_match.                            *)
 
+(*   [t |-> "cls", n |-> "d"|"D"|"s"|"S"|"w"|"W"]   Perl class (Unicode-aware in the regex     *)
+(*                           crate; decided here for ASCII and the few non-ASCII letters the    *)
+(*                           generators use)                                                    *)
+(*   [t |-> "set", cs |-> <<cp..>>, neg |-> BOOLEAN]   bracket class [ab] / [^ab]               *)
+(* A one-character atom (c, dot, cls, set) may carry rep |-> "+" | "?" | "*".                   *)
+IsDigitC(c) == c \in 48..57
+IsSpaceC(c) == c \in {9, 10, 11, 12, 13, 32}
+IsWordC(c) == c \in 48..57 \/ c \in 65..90 \/ c \in 97..122 \/ c = 95 \/ c \in {201, 223, 233}
+ClsOk(n, c) == CASE n = "d" -> IsDigitC(c) [] n = "D" -> ~IsDigitC(c)
+                 [] n = "s" -> IsSpaceC(c) [] n = "S" -> ~IsSpaceC(c)
+                 [] n = "w" -> IsWordC(c)  [] n = "W" -> ~IsWordC(c)
 AtomOk(a, c, ic) ==
   IF a.t = "c" THEN (IF ic THEN LowC(a.c) = LowC(c) ELSE a.c = c)
-  ELSE a.t = "dot" /\ c # 10
+  ELSE IF a.t = "dot" THEN c # 10
+  ELSE IF a.t = "cls" THEN ClsOk(a.n, c)
+  ELSE a.t = "set" /\ ((\E m \in DOMAIN a.cs : IF ic THEN LowC(a.cs[m]) = LowC(c) ELSE a.cs[m] = c) # a.neg)
+RepOf(a) == IF "rep" \in DOMAIN a THEN a.rep ELSE "1"
 
 RECURSIVE ReMatchAt(_, _, _, _)
 (* does atoms[k..] match some prefix of s starting at position pos (1-based)? *)
@@ -48,7 +62,10 @@ ReMatchAt(atoms, k, s, pos) ==
          THEN \E q \in pos..(Len(s) + 1) :
                 /\ \A j \in pos..(q - 1) : s[j] # 10
                 /\ ReMatchAt(atoms, k + 1, s, q)
-    ELSE pos <= Len(s) /\ AtomOk(a, s[pos], FALSE) /\ ReMatchAt(atoms, k + 1, s, pos + 1)
+    ELSE IF RepOf(a) = "1" THEN pos <= Len(s) /\ AtomOk(a, s[pos], FALSE) /\ ReMatchAt(atoms, k + 1, s, pos + 1)
+    ELSE \E q \in (pos + (IF RepOf(a) = "+" THEN 1 ELSE 0))..(IF RepOf(a) = "?" THEN MinOf({pos + 1, Len(s) + 1}) ELSE Len(s) + 1) :
+            /\ \A j \in pos..(q - 1) : AtomOk(a, s[j], FALSE)
+            /\ ReMatchAt(atoms, k + 1, s, q)
 
 RECURSIVE ReMatchAtI(_, _, _, _)
 ReMatchAtI(atoms, k, s, pos) ==
@@ -60,7 +77,10 @@ ReMatchAtI(atoms, k, s, pos) ==
          THEN \E q \in pos..(Len(s) + 1) :
                 /\ \A j \in pos..(q - 1) : s[j] # 10
                 /\ ReMatchAtI(atoms, k + 1, s, q)
-    ELSE pos <= Len(s) /\ AtomOk(a, s[pos], TRUE) /\ ReMatchAtI(atoms, k + 1, s, pos + 1)
+    ELSE IF RepOf(a) = "1" THEN pos <= Len(s) /\ AtomOk(a, s[pos], TRUE) /\ ReMatchAtI(atoms, k + 1, s, pos + 1)
+    ELSE \E q \in (pos + (IF RepOf(a) = "+" THEN 1 ELSE 0))..(IF RepOf(a) = "?" THEN MinOf({pos + 1, Len(s) + 1}) ELSE Len(s) + 1) :
+            /\ \A j \in pos..(q - 1) : AtomOk(a, s[j], TRUE)
+            /\ ReMatchAtI(atoms, k + 1, s, q)
 
 ReSearch(atoms, ic, s) ==
   \E p \in 1..(Len(s) + 1) :
